@@ -1,6 +1,7 @@
 package io
 
 import (
+	"errors"
 	zerr "github.com/DemoHn/Zn/pkg/error"
 	"io"
 	"unicode/utf8"
@@ -12,6 +13,8 @@ type InputStream interface {
 	Read(n int) ([]rune, error)
 	ReadAll() ([]rune, error)
 }
+
+var errInvalidUTF8 = errors.New("内容不是有效的 UTF-8 编码")
 
 // readRune - read bytes and yield runes
 func readRune(r io.Reader, remains []byte, b int) ([]rune, []byte, error) {
@@ -26,8 +29,15 @@ func readRune(r io.Reader, remains []byte, b int) ([]rune, []byte, error) {
 	buf := append(remains, p[:t]...)
 	for len(buf) > 0 {
 		ru, size := utf8.DecodeRune(buf)
-		if ru == utf8.RuneError {
-			return rs, buf, nil
+		// size = 1 means the bytes are not a valid encoding
+		// (size = 3 is the valid character U+FFFD itself)
+		if ru == utf8.RuneError && size <= 1 {
+			// an incomplete sequence at the end of this block:
+			// keep the bytes and wait for the next block
+			if !utf8.FullRune(buf) && err != io.EOF {
+				return rs, buf, nil
+			}
+			return rs, []byte{}, zerr.ReadFileError(errInvalidUTF8, " <buffer> ")
 		}
 
 		rs = append(rs, ru)
